@@ -134,7 +134,7 @@ var MutationOperators = []string{
 	"conflict-different-type", "unknown-directive", "misplaced-directive", "duplicate-directive", "directive-missing-argument",
 	"second-subscription-root", "subscription-typename-root", "duplicate-input-field", "unknown-input-field",
 	"missing-required-input-field", "null-for-non-null-argument", "variable-default-wrong-type", "oneof-two-members", "oneof-null-member",
-	"variable-type-mismatch",
+	"variable-type-mismatch", "conflict-three-selections", "misplaced-custom-directive",
 }
 
 // Mutate applies operator op to a clone of doc (first operation = the one executed, named opName
@@ -609,6 +609,169 @@ func Mutate(r *rand.Rand, s *Schema, doc *Doc, opName string, vars map[string]an
 			}
 			return nil, m, false
 		}
+	case "conflict-three-selections":
+		// `... on A { k: f } k: f ... on B { k: g }` under an interface I with object implementers A, B:
+		// the interface-level `k: f` and `... on B { k: g }` have overlapping parents and different field
+		// names, so the operation is invalid; the leading `... on A { k: f }` is a valid decoy that
+		// an order-dependent merge check has already seen when it reaches the offending pair.
+		m.Rule = "OverlappingFieldsCanBeMerged"
+		noReq := func(f *Field) bool {
+			for _, a := range f.Args {
+				if a.Type.NonNull && a.Default == nil {
+					return false
+				}
+			}
+			return true
+		}
+		type cand struct {
+			ss   setSite
+			a, b string
+			f, g *Field
+		}
+		var cands []cand
+		for _, ss := range w.sets {
+			td := s.Type(ss.parent)
+			if td == nil || td.Kind != Interface {
+				continue
+			}
+			var impls []string
+			for _, t := range s.Types {
+				if t.Kind == Object && s.Overlap(t.Name, ss.parent) {
+					impls = append(impls, t.Name)
+				}
+			}
+			if len(impls) < 2 {
+				continue
+			}
+			for _, f := range td.Fields {
+				if !noReq(f) {
+					continue
+				}
+				for _, bn := range impls {
+					for _, g := range s.Type(bn).Fields {
+						if g.Name == f.Name || !noReq(g) || s.IsComposite(g.Type.NamedType()) != s.IsComposite(f.Type.NamedType()) {
+							continue
+						}
+						for _, an := range impls {
+							if an != bn && s.Type(an).Field(f.Name) != nil {
+								cands = append(cands, cand{ss, an, bn, f, g})
+							}
+						}
+					}
+				}
+			}
+		}
+		if len(cands) == 0 {
+			return nil, m, false
+		}
+		c := cands[r.IntN(len(cands))]
+		m.Site, m.UnderRemoved = siteName(c.ss.depth, c.ss.inFrag), c.ss.removed
+		key := fmt.Sprintf("zzc%d", r.IntN(1000))
+		mk := func(parent string, f *Field) *Sel {
+			fs := &FieldSel{Alias: key, Name: f.Name, Def: f, Parent: parent}
+			if s.IsComposite(f.Type.NamedType()) {
+				fs.Sel = []*Sel{{Field: &FieldSel{Name: "__typename", Parent: f.Type.NamedType()}}}
+			}
+			return &Sel{Field: fs}
+		}
+		append1(c.ss, &Sel{Inline: &InlineFrag{On: c.a, Parent: c.ss.parent, Sel: []*Sel{mk(c.a, s.Type(c.a).Field(c.f.Name))}}})
+		append1(c.ss, mk(c.ss.parent, c.f))
+		append1(c.ss, &Sel{Inline: &InlineFrag{On: c.b, Parent: c.ss.parent, Sel: []*Sel{mk(c.b, c.g)}}})
+	case "misplaced-custom-directive":
+		// a schema-defined directive (no required arguments) on an executable location its definition does not list
+		m.Rule = "KnownDirectives"
+		usable := func(d *DirectiveDef, loc string) bool {
+			for _, a := range d.Args {
+				if a.Type.NonNull && a.Default == nil {
+					return false
+				}
+			}
+			for _, l := range d.Locations {
+				if l == loc {
+					return false
+				}
+			}
+			return true
+		}
+		pickDir := func(loc string) *Dir {
+			var c []*DirectiveDef
+			for _, d := range s.Directives {
+				if usable(d, loc) {
+					c = append(c, d)
+				}
+			}
+			if len(c) == 0 {
+				return nil
+			}
+			return &Dir{Name: c[r.IntN(len(c))].Name}
+		}
+		type inlSite struct {
+			in      *InlineFrag
+			removed bool
+		}
+		type sprSite struct {
+			sp      *Spread
+			removed bool
+		}
+		var inls []inlSite
+		var sprs []sprSite
+		var walkSel func(sels []*Sel, seen map[string]bool, removed bool)
+		walkSel = func(sels []*Sel, seen map[string]bool, removed bool) {
+			for _, x := range sels {
+				switch {
+				case x.Field != nil:
+					walkSel(x.Field.Sel, seen, removed || dirsRemove(x.Field.Dirs, vars))
+				case x.Inline != nil:
+					rem := removed || dirsRemove(x.Inline.Dirs, vars)
+					inls = append(inls, inlSite{x.Inline, rem})
+					walkSel(x.Inline.Sel, seen, rem)
+				case x.Spread != nil:
+					rem := removed || dirsRemove(x.Spread.Dirs, vars)
+					sprs = append(sprs, sprSite{x.Spread, rem})
+					for _, fr := range d.Frags {
+						if fr.Name == x.Spread.Name && !seen[fr.Name] {
+							seen[fr.Name] = true
+							walkSel(fr.Sel, seen, rem)
+						}
+					}
+				}
+			}
+		}
+		walkSel(op.Sel, map[string]bool{}, false)
+		m.Site = "nested"
+		order := r.Perm(4)
+		for _, k := range order {
+			switch k {
+			case 0:
+				if dir := pickDir("FIELD"); dir != nil {
+					if fs, ok := pickField(func(fs fieldSite) bool { return true }); ok {
+						fs.f.Dirs = append(cloneDirs(fs.f.Dirs), dir)
+						return d, m, true
+					}
+				}
+			case 1:
+				if dir := pickDir("INLINE_FRAGMENT"); dir != nil && len(inls) > 0 {
+					x := inls[r.IntN(len(inls))]
+					x.in.Dirs = append(cloneDirs(x.in.Dirs), dir)
+					m.UnderRemoved = x.removed
+					return d, m, true
+				}
+			case 2:
+				if dir := pickDir("FRAGMENT_SPREAD"); dir != nil && len(sprs) > 0 {
+					x := sprs[r.IntN(len(sprs))]
+					x.sp.Dirs = append(cloneDirs(x.sp.Dirs), dir)
+					m.UnderRemoved = x.removed
+					return d, m, true
+				}
+			case 3:
+				if dir := pickDir(map[string]string{"query": "QUERY", "mutation": "MUTATION", "subscription": "SUBSCRIPTION"}[op.Kind]); dir != nil {
+					op.Dirs = append(cloneDirs(op.Dirs), dir)
+					m.Site = "root"
+					return d, m, true
+				}
+			}
+		}
+		return nil, m, false
 	case "unknown-directive":
 		m.Rule = "KnownDirectives"
 		fs, ok := pickField(func(fs fieldSite) bool { return true })
